@@ -578,7 +578,7 @@ func (x *executor) echo(sc Scenario, link netlab.Link) {
 	entries := l.rec.Since(mark)
 	for _, e := range entries {
 		if !bytes.Equal(e.Request, request) {
-			x.res.violate(sc, "request|"+classify(e.Request, request, nil),
+			x.res.violate(sc, "service-"+classify(e.Request, request, nil),
 				fmt.Sprintf("client submitted %s (%d bytes, pattern %s); the service was handed %s", show(request), len(request), patNames[sc.Pat], show(e.Request)))
 		}
 	}
@@ -587,7 +587,7 @@ func (x *executor) echo(sc Scenario, link netlab.Link) {
 		case len(entries) == 0:
 			x.res.violate(sc, "response-without-service", fmt.Sprintf("caller got %s although the service never saw the request", show(resp)))
 		case !bytes.Equal(resp, expect):
-			x.res.violate(sc, "response|"+classify(resp, expect, nil),
+			x.res.violate(sc, "caller-"+classify(resp, expect, nil),
 				fmt.Sprintf("service produced %s (%d bytes, pattern %s); caller got %s", show(expect), len(expect), patNames[sc.Pat], show(resp)))
 		default:
 			x.res.count("echo_delivered_exactly")
@@ -803,7 +803,11 @@ func (x *executor) judge(sc Scenario, delivered [][]byte, allowed [][]byte, own,
 			x.res.count("consistent_delivered")
 			continue
 		}
-		x.res.violate(sc, cellOf(sc)+"|"+classify(d, own, foreign),
+		class := classify(d, own, foreign)
+		if sc.Part == "flip" && class == "incomplete-frame-delivered" {
+			class = "corrupt-frame-delivered" // the body as sent, although the header fails its checksum
+		}
+		x.res.violate(sc, cellOf(sc)+"|"+class,
 			fmt.Sprintf("%s was handed %s (%d bytes); the sender's body was %s (%d bytes), a consistent reading of the received bytes allows %s",
 				to, show(d), len(d), show(own), len(own), showList(allowed)))
 	}
